@@ -6,3 +6,34 @@
 //@   attr #[verifier::reject_recursive_types(QueryC)]
 //@   replace "std::marker::PhantomData<QueryC>" => "core::marker::PhantomData<QueryC>"
 //@ end
+
+impl<ExecC, QueryC> WasmKeeper<ExecC, QueryC> {
+    // a code id is in use
+    pub open spec fn has_code(&self, code_id: u64) -> bool { self.code_data@.contains_key(code_id) }
+    // representation invariant of the keeper's code tables: id 0 is never used; every record points into code_base
+    pub open spec fn codes_wf(&self) -> bool {
+        &&& !self.code_data@.contains_key(0u64)
+        &&& forall|id: u64| self.code_data@.contains_key(id) ==> (#[trigger] self.code_data@[id]).source_id < self.code_base@.len()
+    }
+    // the code a stored code id stands for
+    pub open spec fn code_of(&self, code_id: u64) -> Option<&dyn Contract<ExecC, QueryC>> {
+        if code_id >= 1 && self.code_data@.contains_key(code_id) && self.code_data@[code_id].source_id < self.code_base@.len() {
+            Some(&*self.code_base@[self.code_data@[code_id].source_id as int])
+        } else { None }
+    }
+    // C11: ids. max_id = largest id in use (0 if none)
+    pub open spec fn max_id(&self) -> u64 {
+        if self.code_data@.dom().len() == 0 { 0u64 } else { choose|m: u64| self.code_data@.contains_key(m) && forall|k: u64| self.code_data@.contains_key(k) ==> k <= m }
+    }
+}
+pub uninterp spec fn spec_instance_count(s: St) -> usize;
+pub open spec fn ns_wasm() -> Seq<u8> { seq![119u8, 97u8, 115u8, 109u8] }   // b"wasm"
+pub open spec fn ns_contracts() -> Seq<u8> { str_bytes("contracts"@) }
+// raw key of a contract's registry record in the root store
+pub open spec fn contract_key(a: Addr) -> Seq<u8> { lp(ns_wasm()) + (lp(ns_contracts()) + a.bytes()) }
+pub open spec fn default_app() -> AppResponse { AppResponse { events: vec_of(Seq::<Event>::empty()), data: None } }
+impl CwVal for ContractData {
+    uninterp spec fn ser(&self) -> Seq<u8>;
+    uninterp spec fn ser_ok(&self) -> bool;
+    uninterp spec fn de(b: Seq<u8>) -> StdResult<Self>;
+}
